@@ -478,6 +478,9 @@ def run(ck, facts, tier):
     rule_rebuild(ck, facts, lang)
     rule_subst_order(ck, facts, lang)
     rule_stage_tracker(ck, facts, lang)
+    from ..rules import patcover
+
+    patcover.run(ck, facts, "C09.pattern-cover", roles.LANG)
     # `f!(args)` must equal splicing `f(args)`: the desugaring passes visit every child (shared with C04)
     from ..rules import belief, rewrite
 
